@@ -135,6 +135,9 @@ def tables_and_cursor(rep, idx, spec, table, obj, named):
         elif v == ('attr', R, 'start') or v[0] == 'const' or v == c.norm(('bin', '+', ('attr', R, 'start'), ('call', ('name', 'len'), (R,), ()))):
             rep.bad("C02.4", site, f"self._next_addr = {ir.show(v)[:80]}", "the cursor must become the range's stop (start + element count "
                     "differs from the stop when the range has a step, i.e. for dense windows)")
+        elif v[0] == 'call' and v[1] in (('name', 'max'), ('name', 'min')) and any(x == c.parse("self._next_addr") for a_ in v[2] for x in ir.walk(a_)):
+            rep.bad("C02.4", site, f"self._next_addr = {ir.show(v)[:80]}", "the new cursor depends on the old one: after an item placed at an explicit "
+                    "address below (or above) the cursor, the next implicit placement no longer follows the item that was added last")
         else:
             rep.unk("C02.4", site, f"self._next_addr = {ir.show(v)[:80]}", "unrecognised cursor update")
     # the tables are keyed by id(object): a second insertion of the same object must be refused, or two ranges
